@@ -577,6 +577,43 @@ fn matrix_read(case: &Value) {
     }
 }
 
+/// One step of the variation criterion (sample window) on a real heuristic context: the window state is preloaded, the
+/// generation counter is advanced by real `on_generation` calls, the step goes through the replay accessor.
+fn min_variation(case: &Value) {
+    use rosomaxa::example::{VectorContext, VectorObjective};
+    use rosomaxa::population::Greedy;
+    use rosomaxa::prelude::{Environment, HeuristicContext, Stateful, TelemetryMode};
+    use rosomaxa::termination::MinVariation;
+    use rosomaxa::utils::Timer;
+    let rows = |v: &Value| -> Vec<Vec<Float>> {
+        v.as_array().unwrap().iter().map(|r| r.as_array().unwrap().iter().map(|x| x.as_f64().unwrap()).collect()).collect()
+    };
+    let sample = case["sample"].as_u64().unwrap() as usize;
+    let generation = case["generation"].as_u64().unwrap() as usize;
+    let objective = Arc::new(VectorObjective::new(Arc::new(|data: &[Float]| data.iter().sum()), Arc::new(|data: &[Float]| data.to_vec())));
+    let mut ctx = VectorContext::new(
+        objective.clone(),
+        Box::new(Greedy::new(objective, 1, None)),
+        TelemetryMode::None,
+        Arc::new(Environment::default()),
+    );
+    // the counter is advanced by the real bookkeeping until it shows the generation of the case
+    for _ in 0..(generation + 2) {
+        if ctx.statistics().generation == generation {
+            break;
+        }
+        ctx.on_generation(vec![], 0.1, Timer::start());
+    }
+    if ctx.statistics().generation != generation {
+        setup_failed("generation counter", format!("{} after {generation} on_generation calls", ctx.statistics().generation));
+    }
+    ctx.set_state(0, rows(&case["window"]));
+    let criterion = MinVariation::<VectorContext, _, _, _>::new_with_sample(sample, case["threshold"].as_f64().unwrap(), true, 0);
+    let fitness: Vec<Float> = case["fitness"].as_array().unwrap().iter().map(|x| x.as_f64().unwrap()).collect();
+    let fired = criterion.verif_update_and_check(&mut ctx, fitness);
+    println!("{}", serde_json::to_string(&json!({"fired": fired})).unwrap());
+}
+
 /// Initial solution reader: the written solution document of the case is read back against the problem.
 fn init_read(case: &Value) {
     use std::io::BufReader;
@@ -643,6 +680,9 @@ fn main() {
     }
     if case["kind"] == "init_read" {
         return init_read(&case);
+    }
+    if case["kind"] == "min_variation" {
+        return min_variation(&case);
     }
     if case["kind"] == "goal_order" {
         return goal_order(&case);
